@@ -617,6 +617,24 @@ impl<'a> Socket<'a> {
             hop_limit: 64,
         };
 
+        // An unanswered request or an expired lease restarts discovery. The DISCOVER is
+        // sent by this same call: returning without transmitting would leave `poll_at()`
+        // at an instant in the past after a poll that did nothing.
+        match &self.state {
+            ClientState::Requesting(state)
+                if cx.now() >= state.retry_at
+                    && state.retry >= self.retry_config.request_retries =>
+            {
+                net_debug!("DHCP request retries exceeded, restarting discovery");
+                self.reset();
+            }
+            ClientState::Renewing(state) if state.expires_at <= cx.now() => {
+                net_debug!("DHCP lease expired");
+                self.reset();
+            }
+            _ => {}
+        }
+
         match &mut self.state {
             ClientState::Discovering(state) => {
                 if cx.now() < state.retry_at {
@@ -645,12 +663,6 @@ impl<'a> Socket<'a> {
                     return Ok(());
                 }
 
-                if state.retry >= self.retry_config.request_retries {
-                    net_debug!("DHCP request retries exceeded, restarting discovery");
-                    self.reset();
-                    return Ok(());
-                }
-
                 dhcp_repr.message_type = DhcpMessageType::Request;
                 dhcp_repr.requested_ip = Some(state.requested_ip);
                 dhcp_repr.server_identifier = Some(state.server.identifier);
@@ -672,13 +684,6 @@ impl<'a> Socket<'a> {
             }
             ClientState::Renewing(state) => {
                 let now = cx.now();
-                if state.expires_at <= now {
-                    net_debug!("DHCP lease expired");
-                    self.reset();
-                    // return Ok so we get polled again
-                    return Ok(());
-                }
-
                 if now < state.renew_at || state.rebinding && now < state.rebind_at {
                     return Ok(());
                 }
